@@ -389,6 +389,10 @@ func c20TopLevel(r *harness.Run) {
 		"script S {\n\tdo {\n\t\t@(global):\n\t\tif (flag(A) && flag(B) || flag(C)) {\n\t\t\tx\n\t\t}\n\t} while (var(V) == 1)\n\tmsgbox(\"hi\")\n}\ntext T {\n\t\"t\"\n}\n",
 		"mapscripts M {\n\tON_LOAD {\n\t\tif (flag(A)) {\n\t\t\tx\n\t\t} else {\n\t\t\tmsgbox(\"hi\")\n\t\t}\n\t\t@:\n\t\ty\n\t}\n}\ntext T {\n\t\"t\"\n}\n",
 	}
+	bodies = append(bodies,
+		"mapscripts M {\n\tON_RESUME: Sx\n\tON_FRAME [\n\t\tVAR_A, 0: Sy\n\t\tVAR_A, 1 {\n\t\t\tif (flag(A)) {\n\t\t\t\tx\n\t\t\t}\n\t\t\t@:\n\t\t\tmsgbox(\"hi\")\n\t\t}\n\t\tVAR_A, 2 {\n\t\t\twhile (flag(B)) {\n\t\t\t\ty\n\t\t\t}\n\t\t}\n\t]\n\tON_LOAD {\n\t\tz\n\t}\n}\ntext T {\n\t\"t\"\n}\n",
+		"mapscripts M {\n\tON_LOAD {\n\t\tif (flag(A)) {\n\t\t\tx\n\t\t}\n\t}\n\tON_TRANSITION {\n\t\tswitch (var(V)) {\n\t\t\tcase 1:\n\t\t\t\t@:\n\t\t\t\tmsgbox(\"hi\")\n\t\t}\n\t}\n}\ntext T {\n\t\"t\"\n}\n")
+	owners := []string{"S", "S", "M_ON_LOAD", "M_ON_FRAME_1", "M_ON_TRANSITION"}
 	for bi, body := range bodies {
 		lines := strings.Split(body, "\n")
 		labelLine := 0
@@ -397,10 +401,7 @@ func c20TopLevel(r *harness.Run) {
 				labelLine = i + 1
 			}
 		}
-		owner := "S"
-		if bi == 2 {
-			owner = "M_ON_LOAD"
-		}
+		owner := owners[bi]
 		for _, opt := range []bool{true, false} {
 			renamed := comp.Compile(strings.ReplaceAll(body, "@", "Renamed"), comp.Opts{Optimize: opt})
 			if renamed.Err != nil {
